@@ -158,3 +158,17 @@ def t14_programs(tier):
             main = "flow main\n" + ind(["start c", "start a", "match E4()"])
             yield (b + "\n" + mid + a + "\n" + c + "\n" + main, {}, {}, ["E1", "E2", "E3", "E4"], [],
                    {"t": "T14", "actions": [child_act, parent_act, sib_act], "depth2": depth2}, {})
+
+
+def t15_programs(tier):
+    """a helper flow holds the RESTARTED instance of an activated flow (the FlowStarted event of the restart) and stops that
+    instance by its uid: the instance ended while its activator runs, so the flow is started again"""
+    g_bodies = [["match E2()", "start ActGAction()", "match E3()"], ["match E2()", "match E3()"]]
+    for gb, how in itertools.product(g_bodies, ("stop", "finish")):
+        g = "flow g\n" + ind(gb)
+        req = "StopFlow" if how == "stop" else "FinishFlow"
+        k = "flow k\n" + ind(['match FlowStarted(flow_id="g") as $first', 'match FlowStarted(flow_id="g") as $second', "match E1()",
+                               f"send {req}(flow_instance_uid=$second.flow.uid)", "match Never()"])
+        main = "flow main\n" + ind(["start k", "activate g", "match E4()"])
+        yield (g + "\n" + k + "\n" + main, {"g": ["main"]}, {}, ["E1", "E2", "E3", "E4"], [],
+               {"t": "T15", "g": gb, "request": req}, {})
